@@ -7,9 +7,17 @@ open Model.Diff Spec.Diff
 theorem compareType_self (d : DTy) : compareType d d = false := by
   simp [compareType, typesMatch, argsMatch]
 
-theorem compareType_refl_known (t : MdTy) (h : known (ddlTy t) = true) :
-    compareType (reflTy (ddlTy t)) (ddlTy t) = false := by
-  simp [reflTy, h, compareType_self]
+/-- the compiled type text of a model type against its own declared type: equal first word
+and arguments; a `COLLATE <name>` suffix only changes the *number* of extra words, which
+`_column_args_match` then does not compare -/
+theorem compareType_decl_ddl (t : MdTy) : compareType (declTy t) (ddlTy t) = false := by
+  cases hc : t.coll with
+  | none => simp [ddlTy, hc, compareType, typesMatch, argsMatch]
+  | some c => simp [ddlTy, hc, compareType, typesMatch, argsMatch]
+
+theorem compareType_refl_known (t : MdTy) (h : known (declTy t) = true) :
+    compareType (reflTy (declTy t)) (ddlTy t) = false := by
+  simp [reflTy, h, compareType_decl_ddl]
 
 /-- a column of the class is never reported against the database created from it -/
 theorem compareCol_quiet (cfg : Cfg) (t : String) (c : Col) (h : colOk cfg c = true) :
